@@ -1322,8 +1322,8 @@ def _r148_cmdlines(P, u, rep, cg, pure, models):
             if ctx.decisions:
                 rep.undecided('R14.8', key0 + ':state-not-concrete', '`%s`: the path through parse_args and main depends on values the model leaves open (%s)' % (shown, ' / '.join(_fmt_path(ctx, 3))), where=w)
                 continue
-            got = _check_pipeline_names(rep, key0, '`%s`' % shown, ctx, ins, expect, w)
-            if want_stages is not None:
+            got, wrong = _check_pipeline_names(rep, key0, '`%s`' % shown, ctx, ins, expect, w)
+            if want_stages is not None and not wrong:       # (with wrong files the stage list adds nothing)
                 alts = list(want_stages) if isinstance(want_stages, tuple) else [want_stages]
                 ok = got in alts
                 rep.ob('R14.8', key0 + (':expected-stages' if ok else ':runs-%s' % ('+'.join(got) or 'no-stage')), ok,
@@ -1421,9 +1421,9 @@ def _check_pipeline_names(rep, key0, sc, ctx, ins, expect, w):
         ok = nm in names
         rep.ob('R14.8', key0 + (':requested-outputs-written' if ok else ':requested-output-%s-missing' % nm), ok,
                'scenario %s (inputs %s): the driver returns success without any stage writing the requested output %r (written instead: %s)' % (sc, ', '.join(ins), nm, ', '.join(names) or 'nothing'), where=w)
-    if not expect:
-        rep.ob('R14.8', key0 + (':no-file-output' if not names else ':files-written-in-stdout-mode'), not names, 'scenario %s writes files (%s) although only standard output is requested' % (sc, ', '.join(names)), where=w)
-    return [st[0] for st in stages]
+    if not expect and not names:        # (every file written in a standard-output mode is reported above as unrequested)
+        rep.ob('R14.8', key0 + ':no-file-output', True, '', where=w)
+    return [st[0] for st in stages], [nm for nm in names if nm not in expect] + [nm for nm in expect if nm not in names]
 
 
 def _r148_cc1(P, u, rep, cg):
@@ -1492,6 +1492,80 @@ def _r148_cc1(P, u, rep, cg):
                        'scenario cc1/%s creates files (%s) although only standard output is requested' % (sc, ', '.join(names)), where=w)
         if nret == 0:
             rep.undecided('R14.8', key0 + ':no-success-path', 'no path of cc1 returns for scenario %s' % sc)
+    # ---- the same through the real option parser: the argument vector of a cc1 child as run_cc1 builds it
+    # (the user's command line followed by -cc1 -cc1-input <input> [-cc1-output <file>]), main interpreted from the start
+    if 'parse_args' not in u.functions:
+        rep.undecided('R14.8', '%s:cc1:cmd:option-parser' % U, 'parse_args vanished: command lines cannot be interpreted')
+        return
+    models = dict(L.string_models())
+    models['strarray_push'] = _m_strarray_push_store
+    opaque2 = [f for f in opaque if f not in ('main', 'parse_args')]
+    wm = _where(u.fn('main'))
+    for label, opts, inp, outp, expect in _CC1_CMDLINES:
+        key0 = '%s:cc1:cmd-%s' % (U, label)
+        words = ['chibicc'] + opts + [inp, '-cc1', '-cc1-input', inp] + (['-cc1-output', outp] if outp else [])
+        shown = ' '.join(words)
+        argv = Arr([L.cbuf(x, 'argv') for x in words] + [0], label='argv')
+        try:
+            it = L.make_interp(P, u, opaque=opaque2, extra_models=models, globals_=_zero_statics(u, {}), loop_limit=1)
+            L.slice_loops(it, u, creators | terminators | file_fns)
+            ps = it.explore('main', lambda ctx: [len(words), _Ref(ElemPlace(argv, 0))], max_paths=5000)
+        except AnalysisBroken as e:
+            rep.undecided('R14.8', key0 + ':interpretation', str(e))
+            continue
+        nret = 0
+        for ctx, out in ps:
+            if out[0] != 'ret':
+                continue
+            nret += 1
+            evs = L.calls_of(ctx)
+            stage = sorted(set(e[1] for e in evs if e[1] in SUBPROC or e[1] in L.LAUNCH_FNS or e[1] in TMP_CREATE))
+            rep.ob('R14.8', key0 + (':stays-in-cc1-role' if not stage else ':cc1-process-calls-%s' % '+'.join(stage)), not stage,
+                   '`%s`: the process started in the cc1 role calls %s' % (shown, ', '.join(stage)), where=wm)
+            names = []
+            for e in evs:
+                name, args = e[1], e[2]
+                if not (name in ('fopen', 'fopen64') or name in PATH_CREATE):
+                    continue
+                mode = args[1] if len(args) > 1 else None
+                if name.startswith('fopen') and isinstance(mode, str) and not (mode[:1] in ('w', 'a') or '+' in mode):
+                    continue
+                nm = _name_of(args[0]) if args else None
+                if nm is None:
+                    rep.undecided('R14.8', key0 + ':opened-name-not-concrete', '`%s`: a file whose name is not concrete (%r) is opened for writing' % (shown, args[:1]), where='%s:%d' % (U, e[3]))
+                    continue
+                names.append(nm)
+                if nm not in expect:
+                    rep.ob('R14.8', key0 + ':unrequested-file-%s' % nm, False,
+                           '`%s`: the file %r is created, which the command line does not ask for (requested: %s)' % (shown, nm, ', '.join(expect) or 'standard output only'),
+                           where='%s:%d' % (U, e[3]), facts={'path': _fmt_path(ctx)})
+            for nm in expect:
+                ok = nm in names
+                rep.ob('R14.8', key0 + (':requested-files-written' if ok else ':requested-file-%s-missing' % nm), ok,
+                       '`%s`: the cc1 process returns without creating the requested file %r (created: %s)' % (shown, nm, ', '.join(names) or 'nothing'), where=w, facts={'path': _fmt_path(ctx)})
+            if not expect:
+                rep.ob('R14.8', key0 + (':no-file-output' if not names else ':files-written-in-stdout-mode'), not names,
+                       '`%s` creates files (%s) although only standard output is requested' % (shown, ', '.join(names)), where=w)
+        if nret == 0:
+            rep.undecided('R14.8', key0 + ':no-success-path', 'no path of main returns for `%s`' % shown)
+
+
+_ASM_T = 'tmp.d/cc1out.v3.s'
+_CC1_CMDLINES = [
+    # label, user options, input, -cc1-output operand (None: standard output), files the cc1 process must create
+    ('E-x-asm', ['-E', '-x', 'assembler'], _A1, None, []),
+    ('E+o', ['-E', '-o', _OUT], _C1, None, [_OUT]),
+    ('E+c+o', ['-c', '-E', '-o' + _OUT], _C1, None, [_OUT]),
+    ('M+c', ['-M', '-c'], _C1, None, []),
+    ('M+MF+o', ['-M', '-MF', 'deps.v1.mk', '-o', _OUT], _C1, None, ['deps.v1.mk']),
+    ('c', ['-c'], _C1, _ASM_T, [_ASM_T]),
+    ('c-xc', ['-c', '-xc'], _A1, _ASM_T, [_ASM_T]),
+    ('S+o', ['-S', '-o', _OUT], _C1, _OUT, [_OUT]),
+    ('c+MD', ['-c', '-MD'], _C1, _ASM_T, [_ASM_T, _stem(_C1) + '.d']),
+    ('c+MD+o', ['-MD', '-c', '-o', 'out.v2.o'], _C1, _ASM_T, [_ASM_T, 'out.v2.d']),
+    ('S+MMD+MF', ['-S', '-MMD', '-MF', 'deps.v1.mk'], _C1, _stem(_C1) + '.s', [_stem(_C1) + '.s', 'deps.v1.mk']),
+    ('link+MD+MT', ['-MD', '-MT', 'tgt.v1'], _C1, _ASM_T, [_ASM_T, _stem(_C1) + '.d']),
+]
 
 
 # ================================================================== R14.9 ===
